@@ -17,7 +17,7 @@ PROPS = {
     "C01": {
         "test": "TestC01",
         "lean_modules": ["Gittuf.Props.C01", "Gittuf.Props.C02b"],
-        "n": {"quick": 24, "thorough": 600},
+        "n": {"quick": 24, "thorough": 96},
         "min_per_shard": 6,
         "rule": WORLD_RULE,
         "trusted_base": COMMON_TB,
@@ -27,7 +27,7 @@ PROPS = {
     "C05": {
         "test": "TestC05",
         "lean_modules": ["Gittuf.Props.C05", "Gittuf.Proofs.SigComplete", "Gittuf.Proofs.SigCompleteGit"],
-        "n": {"quick": 1200, "thorough": 24000},
+        "n": {"quick": 1200, "thorough": 12000},
         "rule": "random rules over <=4 principals (Key / Person with 1-2 keys, shared or disjoint keys), thresholds 0..5, "
                 "Git signer in {trusted, untrusted, unsigned, no object}, envelopes with <=5 signatures incl. untrusted keys, "
                 "lifted signatures, wrong/empty key-id hints; 12% through the exhaustive verifier. The real "
@@ -39,7 +39,7 @@ PROPS = {
     "C13": {
         "test": "TestC13",
         "lean_modules": ["Gittuf.Props.C13"],
-        "n": {"quick": 800, "thorough": 20000},
+        "n": {"quick": 800, "thorough": 16000},
         "min_per_shard": 100,
         "rule": "random sequences of 5-25 edits on real tufv01/tufv02 objects (60% rule files, 40% roots; 30% legacy schema): "
                 "AddRule/UpdateRule/RemoveRule/ReorderRules/Add-/Update-/RemovePrincipal resp. Add-/Delete- root and primary-rule-file "
@@ -60,7 +60,7 @@ PROPS = {
     "C06": {
         "test": "TestC06",
         "lean_modules": ["Gittuf.Props.C06"],
-        "n": {"quick": 600, "thorough": 20000},
+        "n": {"quick": 600, "thorough": 9000},
         "rule": "random delegation graphs of <=4 rule files x <=3 rules (+ trailing allow rule, 6% of files without it); patterns from literal / prefix-glob / '?' / catch-all forms over git: and file:; any terminating flags; half with unique rule names (forests, plus a rule named 'targets'), half with free names (cycles, self loops, diamonds); per-file principal definitions, 15% with the same person id defined with different keys in different files, 6% with ids a rule's own file does not define; 10 paths per graph covering match / no-match of every pattern. Each case = one graph x all paths: the real State.FindVerifiersForPath on a State holding only the metadata envelopes, and for 20% also through State.Commit + LoadCurrentState(BypassRSL) (the loader refuses duplicated names: ErrDuplicatedRuleName, predicted by the model). Compared: exact ordered list of (name, threshold, principals with keys) per path; non-trivial = some path has a verifier and the policy has a delegated file; distinct by input hash.",
         "trusted_base": COMMON_TB,
         "assumptions": ["bracket classes of fnmatch are not modelled and not generated",
@@ -69,7 +69,7 @@ PROPS = {
     "C14": {
         "test": "TestC14",
         "lean_modules": ["Gittuf.Props.C14"],
-        "n": {"quick": 1500, "thorough": 30000},
+        "n": {"quick": 1500, "thorough": 15000},
         "rule": "22% entries recorded through the real API (NewReferenceEntry / NewAnnotationEntry / NewPropagationEntry + Commit or "
                 "CommitWithoutNumber on scratch repositories; UTF-8 reference names git accepts incl. Unicode blanks inside and, rarely, at the "
                 "ends (F11); 40/64-hex ids; 1..9 referenced entries; messages with PEM markers, CR/LF, NUL, empty, 45..500 bytes; upstream "
@@ -86,7 +86,7 @@ PROPS = {
     "C07": {
         "test": "TestC07",
         "lean_modules": ["Gittuf.Props.C07"],
-        "n": {"quick": 48, "thorough": 1200},
+        "n": {"quick": 48, "thorough": 192},
         "min_per_shard": 8,
         "rule": "recovery patterns on a real repository: 2-8 pushes over one or two protected references, each independently valid or "
                 "violating (signed by a key outside the rule), tree-new or tree-same as an earlier entry; structured episodes "
@@ -100,7 +100,7 @@ PROPS = {
     "C02": {
         "test": "TestC02",
         "lean_modules": ["Gittuf.Props.C02", "Gittuf.Props.C02b"],
-        "n": {"quick": 40, "thorough": 1000},
+        "n": {"quick": 40, "thorough": 160},
         "min_per_shard": 10,
         "rule": "chains of 1-5 policy states on a real repository; each successor is obtained from its predecessor by one of: valid bump, "
                 "valid re-key, root rotation signed by old / new / both / predecessor's keys with threshold 1 or 2, forged root signature, "
@@ -115,7 +115,7 @@ PROPS = {
     "C11": {
         "test": "TestC11",
         "lean_modules": ["Gittuf.Props.C11", "Gittuf.Props.C11b"],
-        "n": {"quick": 16, "thorough": 400},
+        "n": {"quick": 16, "thorough": 64},
         "min_per_shard": 4,
         "rule": "histories as for C01 under policies that combine delegation rules with 0-2 global rules (threshold 1..3 over the verified "
                 "reference, over all branches, over an unrelated reference; block-force-pushes over all branches or one branch); every "
@@ -128,7 +128,7 @@ PROPS = {
     "C09": {
         "test": "TestC09",
         "lean_modules": ["Gittuf.Props.C09"],
-        "n": {"quick": 40, "thorough": 800},
+        "n": {"quick": 40, "thorough": 160},
         "min_per_shard": 6,
         "rule": "1-3 pushes to a branch protected by a threshold 1..3 rule over Person/Key principals; 0-2 GitHub apps (trusted or not); "
                 "attestation states with reference authorizations and code-review approvals for the exact change or another change, "
@@ -143,7 +143,7 @@ PROPS = {
     "C04": {
         "test": "TestC04",
         "lean_modules": ["Gittuf.Props.C04"],
-        "n": {"quick": 120, "thorough": 2400},
+        "n": {"quick": 120, "thorough": 480},
         "min_per_shard": 10,
         "rule": "one case = one real RSL (<=12 entries, 8%: <=30; thorough also <=60) built through pkg/rsl (Commit / CommitWithoutNumber) or crafted commit by commit, "
                 "over refs {main, feature, gittuf/policy, gittuf/policy-staging, gittuf/attestations}, reference / propagation / annotation entries "
@@ -159,7 +159,7 @@ PROPS = {
     "C03": {
         "test": "TestC03",
         "lean_modules": ["Gittuf.Props.C03"],
-        "n": {"quick": 150, "thorough": 3000},
+        "n": {"quick": 150, "thorough": 600},
         "min_per_shard": 10,
         "rule": "one case = a sequence of 1..12 (10%: ..30; thorough 3%: ..120) recording operations through the real pkg/rsl API on a real repository: "
                 "reference / propagation / annotation entries with Commit, 30% starting with 1-4 CommitWithoutNumber (legacy) operations, annotations naming "
@@ -175,7 +175,7 @@ PROPS = {
     "C19": {
         "test": "TestC19",
         "lean_modules": ["Gittuf.Props.C19"],
-        "n": {"quick": 10, "thorough": 300},
+        "n": {"quick": 10, "thorough": 40},
         "min_per_shard": 3,
         "rule": "policies with one or two rules consulted for the target branch (thresholds 1..3 over Person principals), optional "
                 "file rule, optional global rule, optional trusted app; a valid base state of the branch; a feature history of 1-3 "
@@ -190,7 +190,7 @@ PROPS = {
     "C10": {
         "test": "TestC10",
         "lean_modules": ["Gittuf.Props.C10", "Gittuf.Props.C10b"],
-        "n": {"quick": 64, "thorough": 960},
+        "n": {"quick": 64, "thorough": 320},
         "min_per_shard": 16,
         "rule": "layer (a), the path codec, only (kind \"paths\"; the verification layer is C10b): per case one commit on a real repository - "
                 "root commit (30%), linear child modifying / adding / deleting paths (40%), merge commit with two parents incl. tree-same "
@@ -210,7 +210,7 @@ PROPS = {
     "C18": {
         "test": "TestC18",
         "lean_modules": ["Gittuf.Props.C18"],
-        "n": {"quick": 48, "thorough": 720},
+        "n": {"quick": 48, "thorough": 192},
         "min_per_shard": 8,
         "timeout": "120m",
         "rule": "per case a real bare upstream and a real bare downstream repository (shared per shard, references reset, blob contents unique "
@@ -233,7 +233,7 @@ PROPS = {
     "C16": {
         "test": "TestC16",
         "lean_modules": ["Gittuf.Props.C16"],
-        "n": {"quick": 16, "thorough": 100000},
+        "n": {"quick": 16, "thorough": 64},
         "shards": 1,
         "timeout": "180m",
         "rule": "operation in {record entry, annotation, State.Commit(with entry), Apply, Discard, ReconcileStaging, Attestations.Commit} x starting "
@@ -252,7 +252,7 @@ PROPS = {
     "C17": {
         "test": "TestC17",
         "lean_modules": ["Gittuf.Props.C17"],
-        "n": {"quick": 90, "thorough": 700},
+        "n": {"quick": 90, "thorough": 360},
         "shards": 1,
         "rule": "two concurrent recording operations (record/record, record/annotate, annotate/annotate) on a real repository with a log of 0 or 2 "
                 "entries, their gitstore.Storer calls serialised by an explicit schedule; Commit taken as one Storer call and, separately, in its "
@@ -269,7 +269,7 @@ PROPS = {
     "C20": {
         "test": "TestC20",
         "lean_modules": ["Gittuf.Props.C20"],
-        "n": {"quick": 150, "thorough": 2000},
+        "n": {"quick": 150, "thorough": 600},
         "shards": 2,
         "min_per_shard": 60,
         "rule": "1 environment graph per run: every table / Go function / Lua function / userdata reachable from the globals table, the thread "
@@ -297,7 +297,7 @@ PROPS = {
     "C08": {
         "test": "TestC08",
         "lean_modules": ["Gittuf.Props.C08", "Gittuf.Proofs.CacheRefine", "Gittuf.Proofs.CacheLoop"],
-        "n": {"quick": 6, "thorough": 120},
+        "n": {"quick": 6, "thorough": 24},
         "min_per_shard": 2,
         "rule": "histories as for C01 (key-disjoint principals); each is verified by the real verifier (full / latest-only / from-entry for "
                 "every reference) under the cache configurations: no cache; no cache, repeated in reverse order; cache populated at the "
@@ -312,7 +312,7 @@ PROPS = {
     "C15": {
         "test": "TestC15",
         "lean_modules": ["Gittuf.Props.C15"],
-        "n": {"quick": 100, "thorough": 1600},
+        "n": {"quick": 100, "thorough": 400},
         "min_per_shard": 20,
         "rule": "one case = a REAL pair of repositories (bare remote + bare local with the remote as origin) whose RSLs share a prefix of 0-3 entries and "
                 "then carry local-only / remote-only suffixes of 0-4 (thorough: -10) entries: reference entries over {main, feature, dev} (65% disjoint reference sets, "
@@ -332,7 +332,7 @@ PROPS = {
     "C12": {
         "test": "TestC12",
         "lean_modules": ["Gittuf.Props.C12"],
-        "n": {"quick": 30, "thorough": 600},
+        "n": {"quick": 30, "thorough": 120},
         "min_per_shard": 8,
         "rule": "random sequences of 4-12 operations on a real repository, 60% on the internal/policy layer (State.Commit of full policy states obtained from "
                 "the previous one by valid bumps, root rotations signed by old / new / both keys, forged or unsigned roots and rule files, version rollbacks, "
